@@ -43,6 +43,26 @@ P = {
    technique="comparer-discipline scan, guard extraction (writer order check, sort-by-level, insertion shortcut), value-origin flow (bounds, levels of the compaction edit), who-may-call for the trivial flag",
    text="Decides the code shapes that establish the LSM invariant: comparer used for every key comparison, outputs cut at user-key boundaries, writer rejects disorder and records true bounds, levels sorted (or legally inserted) on install, a compaction edit deletes exactly its inputs and adds outputs one level down after expanding inputs, recovered tables at level 0. The invariant on actual versions is NOT decided.",
    ref="DESIGN.md §2 C06"),
+ "C07": dict(
+   technique="typestate pairing of version/buffer references, who-may-delete reachability with a reviewed deleter table, guard extraction (remove-at-zero, startup sweep keep-conditions), must-precede (install before release, discard before unlock)",
+   text="Decides structural necessary conditions of file lifetime management: reference before release on version install; removal of tables only through the file cache's deletion callback and only at zero references; every version()/buffer reference released or transferred exactly once on every CFG path; partial outputs dropped/reverted on every failure exit; the startup sweep's keep-conditions and its ordering after the missing-table check. refLoop's delta arithmetic over histories is NOT decided.",
+   ref="DESIGN.md §2 C07"),
+ "C08": dict(
+   technique="error-discipline sweep over all error-returning calls (go/ssa referrers) against a reviewed list, not-on-error path rules, guard extraction for checksum gates and error classification, constant evaluation of the default strict set",
+   text="Decides that no error of any call in the engine packages is silently dropped outside a reviewed teardown list, that failed log/manifest writes are not applied/acknowledged/installed, that a failed journal write consumes its sequence numbers, that the journal writer latches errors, that block bytes are used only behind the CRC gate with verification flags plumbed from the options, and that a source iterator's read error is consulted before end-of-data or a candidate is reported. Which answers are returned under which fault sequence is NOT decided.",
+   ref="DESIGN.md §2 C08"),
+ "C11": dict(
+   technique="shared path rules (commit order, sequence capture, token contracts), exhaustiveness over *Transaction's exported method set, guarded-by lockset analysis for the transaction's fields, exactly-once counting in setDone",
+   text="Decides the structural necessary conditions of transaction isolation/atomicity/no-residue: sequence isolation, commit order, closed-check-first in every exported method under tr.lk, own buffer/tables layered first, discard removes tables before unlocking, Close discards before locking, the internal large-batch transaction is always finished. Runtime visibility and crash images are NOT decided.",
+   ref="DESIGN.md §2 C11"),
+ "C18": dict(
+   technique="exhaustiveness over *DB's exported method set (go/types), guard extraction (closed/released/read-only gates), VTA call-graph reachability from the read-only open path, pairing of the storage lock",
+   text="Decides that every fallible exported DB method tests the closed flag before touching anything, Close is gated by a compare-and-swap, snapshot and iterator handles test their own state first, the storage lock is taken first/released on failure/exclusive in both storages, the read-only open path cannot reach any storage mutation and the file storage's mutators refuse when read-only, and that the read-only state rejects writers. Races with Close and drain timing are NOT decided.",
+   ref="DESIGN.md §2 C18"),
+ "C20": dict(
+   technique="interprocedural value-flow: freshness summaries for returned buffers, per-(function,parameter) taint summaries for retained/modified arguments with callbacks resolved at call sites, store-shape check for iterator buffers",
+   text="Decides buffer ownership across the API boundary on every path: Get results are fresh copies; key/value/batch arguments are never retained or modified (only read or copied from), including through the write-merge hand-off; iterator key/value are private buffers; the memdb arena is append-only. Heap modelled field-/cell-based (no points-to): aliasing through interface-typed cache values beyond summarised paths is NOT covered.",
+   ref="DESIGN.md §2 C20"),
 }
 
 PENDING = "rules for this property are not armed in this revision of /verif (work in progress); it is not claimed until its checks are silent on the tree and kill their own mutants"
